@@ -578,10 +578,16 @@ def gen_history(rng, profile, faults=False, sweep=False, hostile=False, reuse=Fa
                     if vals and rng.random() < 0.6:
                         for (vv, ff, rr) in vals:
                             extra.append(P.step(c, "DROPV", vv))
-                        extra.append(P.step(c, "DROPI", i))
+                        for gg in groups:
+                            for ii in gg["inputs"]:
+                                extra.append(P.step(c, "DROPI", ii))
                 elif rng.random() < 0.5:
                     extra.append(P.step(c, "RENDER", kept))
                 st2, _ = task_steps(b, c, q2, i2, pull_pattern(rng))
+                if early_drop and rng.random() < 0.6:
+                    # the input stack goes as soon as the execution has started:
+                    # the result set has its own copy
+                    st2.insert(1, P.step(c, "DROPI", i2))
                 extra += st2
                 if not early_drop and rng.random() < 0.5:
                     extra.append(P.step(c, "DROPO", kept))
